@@ -108,6 +108,13 @@ func (r *retainer) aliasSet(fn *ssa.Function, src ssa.Value) map[ssa.Value]bool 
 						if bi.Name() == "append" && len(t.Call.Args) > 0 && isT(t.Call.Args[0]) {
 							mark(t)
 						}
+						// zero-copy views: unsafe.String / StringData / Slice / SliceData / Add keep the array
+						switch bi.Name() {
+						case "String", "StringData", "Slice", "SliceData", "Add":
+							if len(t.Call.Args) > 0 && isT(t.Call.Args[0]) {
+								mark(t)
+							}
+						}
 						continue
 					}
 					// callee may return an alias of a tainted argument
